@@ -136,7 +136,8 @@ impl<'a> PlaceDescriptor<'a> {
     }
 
     pub fn prev(&self) -> Option<PlaceDescriptor<'a>> {
-        self.unit.find_place_by_idx(self.pos_in_unit - 1)
+        self.unit
+            .find_place_by_idx(self.pos_in_unit.checked_sub(1)?)
     }
 
     pub fn line_eq(&self, other: &PlaceDescriptor) -> bool {
@@ -484,17 +485,12 @@ impl BsUnit {
         let pc = u64::from(pc);
         match self.lines.binary_search_by_key(&pc, |line| line.address) {
             Ok(mut p) => {
-                let mut place = self.find_place_by_idx(p);
-                p -= 1;
-
-                while let Some(next_place) = self.find_place_by_idx(p)
-                    && u64::from(next_place.address) == pc
-                {
-                    place = Some(next_place);
+                // walk back to the first row with this address; `p` may be 0 (first row of the unit)
+                while p > 0 && self.lines[p - 1].address == pc {
                     p -= 1;
                 }
 
-                place
+                self.find_place_by_idx(p)
             }
             Err(_) => None,
         }
